@@ -173,6 +173,8 @@ def c10(run):
     # the same TLC run emits a deterministic sample of the explored configurations, replayed on the real code below
     cases = run.gen("MC_TxScan", "Gen_TxScan.cfg", env={"GEN_MOD": "600" if run.tier == "thorough" else "6000"}, timeout=3600)
     if run.tier == "thorough":
+        # the original algorithm (matched transactions are visited again) computes the same sets
+        run.mc("MC_TxScan", "MC_TxScan_noskip.cfg", timeout=3600)
         r = run.mc("MC_TxScan", "MC_TxScan_norecheck.cfg", expect_fail=True, timeout=3600)
         if r["ok"]:
             raise pipeline.Infra("negative control failed: the scan without the recursive re-check should depend on the block order")
